@@ -234,7 +234,7 @@ func (a *nilAnalyzer) analyze(f *ssa.Function, k int) []nilFinding {
 				}
 			case *ssa.FieldAddr:
 				if isNil(x.X) {
-					add("deref", "field "+fieldVar(x).Name()+" of the nil receiver", in.Pos(), false)
+					add("deref", "field "+fname(fieldVar(x))+" of the nil receiver", in.Pos(), false)
 				} else if _, ok := x.X.(*ssa.Alloc); !ok {
 					if !nonNilByCondition(f, in, x.X) {
 						add("mayPanic", "field access through possibly nil pointer "+descr(x.X), in.Pos(), false)
